@@ -95,7 +95,7 @@ ASSUMPTIONS = [
 
 CODECS = ['json', 'json-str', 'file-std', 'file-mem', 'pickle', 'deepcopy']
 FILE_CODECS = ('file-std', 'file-mem')
-SCHEMA_FAMILIES = ('container', 'object', 'typed-root')
+SCHEMA_FAMILIES = ('container', 'object', 'typed-root', 'usereq', 'keypath')
 
 
 def cases(ctx):
@@ -237,9 +237,37 @@ def compare_fn(a, b, where, out):
     compare(ra[1], rb[1], 'loose', f'{where}(...)', out)
 
 
+def untyped_slot(holder, key):
+  """The member `key` of `holder` is not governed by a value spec that says
+  what it is (no field, or pg.typing.Any)."""
+  if not isinstance(holder, pg.Symbolic):
+    return True
+  try:
+    f = holder.sym_attr_field(key)
+  except Exception:  # pylint: disable=broad-except
+    return True
+  return f is None or isinstance(f.value, pg.typing.Any)
+
+
+def converted(x, y, mapped, holder, key, where, out):
+  """JSON carries a pg.KeyPath as its path string (the registered type
+  conversion); only a pg.KeyPath-typed slot converts it back. In an untyped
+  slot both outcomes are accepted, but the string must be the path."""
+  if not (mapped and isinstance(x, pg.KeyPath) and type(y) is str
+          and (holder is None or untyped_slot(holder, key))):
+    return False
+  if y != x.path:
+    out.append(('not-equal', f'at {where or "<root>"}: the path {x.path!r} came back as {y!r}'))
+  return True
+
+
 def compare(a, b, mapped, where, out):
   """NaN-aware structural comparison with exact types. Appends
-  (clause, detail) with clause 'type-differs' or 'not-equal'."""
+  (clause, detail) with clause 'type-differs' or 'not-equal'. Members with a
+  user-defined equality are compared member by member / by type and
+  attributes, never through their own `==`."""
+  if where == '' and converted(a, b, mapped, None, None, where, out):
+    return
   ta, tb = type(a), type(b)
   if mapped and tb is not ta:
     # from_json maps dict/list to pg.Dict/pg.List (documented); a plain
@@ -256,6 +284,9 @@ def compare(a, b, mapped, where, out):
     if not V.same_float(a, b):
       out.append(('not-equal', f'at {where or "<root>"}: {a!r} -> {b!r}'))
     return
+  if isinstance(a, S.OPAQUE_EQ_TYPES):
+    compare(dict(vars(a)), dict(vars(b)), False, f'{where}.__dict__', out)
+    return
   if isinstance(a, dict) or is_model_object(a):
     ka = list(a.sym_keys()) if isinstance(a, pg.Symbolic) else list(a.keys())
     kb = list(b.sym_keys()) if isinstance(b, pg.Symbolic) else list(b.keys())
@@ -265,7 +296,8 @@ def compare(a, b, mapped, where, out):
     for k in ka:
       x = a.sym_getattr(k) if isinstance(a, pg.Symbolic) else a[k]
       y = b.sym_getattr(k) if isinstance(b, pg.Symbolic) else b[k]
-      compare(x, y, mapped, f'{where}[{k!r}]', out)
+      if not converted(x, y, mapped, a, k, f'{where}[{k!r}]', out):
+        compare(x, y, mapped, f'{where}[{k!r}]', out)
     return
   if isinstance(a, (list, tuple)):
     if len(a) != len(b):
@@ -275,7 +307,8 @@ def compare(a, b, mapped, where, out):
     for i in range(len(a)):
       x = a.sym_getattr(i) if isinstance(a, pg.Symbolic) else a[i]
       y = b.sym_getattr(i) if isinstance(b, pg.Symbolic) else b[i]
-      compare(x, y, mapped, f'{where}[{i}]', out)
+      if not converted(x, y, mapped, a, i, f'{where}[{i}]', out):
+        compare(x, y, mapped, f'{where}[{i}]', out)
     return
   if (a is not b and isinstance(a, types.FunctionType) and isinstance(b, types.FunctionType)
       and S.is_code_function(a)):
@@ -338,6 +371,12 @@ def check(codec, d, family, c=None, variant=0, wseed=0):
     count('pickle_skipped_local_function')
     return []
   v = S.build(d)
+  # Values with a user-defined equality: pg.eq of the value says nothing about
+  # its content; the comparison goes member by member instead (`compare`).
+  ueq = S.has_user_eq(d)
+  if ueq and not S.reflects(d, v):
+    count('skipped_constructor_does_not_keep_the_described_members')
+    return []
   # pickle drops the value spec of a typed root (see ASSUMPTIONS): plain
   # containers kept plain by that spec (frozen defaults) then become symbolic.
   mapped = (codec in ('json', 'json-str') + FILE_CODECS
@@ -359,15 +398,15 @@ def check(codec, d, family, c=None, variant=0, wseed=0):
       diffs = []
       compare(v, twin, False, '', diffs)
       try:
-        same = not diffs and pg.eq(v, twin) and pg.eq(twin, v)
+        same = not diffs and (ueq or (pg.eq(v, twin) and pg.eq(twin, v)))
       except Exception:  # pylint: disable=broad-except
         same = False
       same_hash = True
       if same and hash_defined:
         try:
           same_hash = pg.hash(v) == pg.hash(twin)
-        except TypeError:
-          pass
+        except Exception:  # pylint: disable=broad-except
+          pass            # (unhashable member, or one whose == raises)
       _REBUILD[key] = (same, same_hash)
     same, same_hash = _REBUILD[key]
     if not same:
@@ -395,7 +434,9 @@ def check(codec, d, family, c=None, variant=0, wseed=0):
   count('type_checks')
   compare(v, back, mapped, '', problems)
   count('eq_checks')
-  if not nan and not problems:
+  if ueq:
+    count('eq_checks_member_by_member(user-defined equality)')
+  if not nan and not problems and not ueq:
     try:
       if not (pg.eq(v, back) and pg.eq(back, v)):
         problems.append(('not-equal', 'pg.eq(original, restored) is False: '
@@ -408,15 +449,19 @@ def check(codec, d, family, c=None, variant=0, wseed=0):
   if hash_defined:
     try:
       h = pg.hash(v)
-    except TypeError:
+    except Exception as e:  # pylint: disable=broad-except
+      if not (isinstance(e, TypeError) or ueq):
+        raise
       h = None
       count('hash_skipped_unhashable')
     if h is not None:
       count('hash_checks')
       try:
         hb = pg.hash(back)
-      except TypeError as e:
-        hb = f'unhashable ({e!s:.80})'
+      except Exception as e:  # pylint: disable=broad-except
+        if not (isinstance(e, TypeError) or ueq):
+          raise
+        hb = f'unhashable ({type(e).__name__}: {e!s:.80})'
       if h != hb:
         problems.append(('hash-differs', f'pg.hash {h} -> {hb} for {v!r:.150}'))
   if problems or codec in FILE_CODECS:
@@ -436,7 +481,15 @@ def check(codec, d, family, c=None, variant=0, wseed=0):
     return first_per_clause(problems)
   # -- schema ----------------------------------------------------------------------
   if family in SCHEMA_FAMILIES and isinstance(back, pg.Symbolic) and isinstance(v, pg.Symbolic):
-    if not SM.schema_ok([v], tolerate_partial=partial):
+    try:
+      original_ok = not SM.schema_ok([v], tolerate_partial=partial)
+    except Exception:  # pylint: disable=broad-except
+      if not ueq:
+        raise
+      # (the schema monitor compares members by pg.eq: a member whose == raises)
+      count('schema_skipped_member_cannot_be_compared')
+      return first_per_clause(problems)
+    if original_ok:
       count('schema_ok_evals')
       for clause, detail in SM.schema_ok([back], tolerate_partial=partial):
         problems.append(('schema-' + clause, detail))
@@ -506,6 +559,9 @@ def reload_check(d, c=None, variant=0, only=None):
   if not S.has_nan(d) and not _REBUILD.get(repr(d), (True, True))[0]:
     return []
   v = S.build(d)
+  ueq = S.has_user_eq(d)
+  if ueq and not S.reflects(d, v):
+    return []
   j = v.to_json() if (isinstance(v, pg.Symbolic) and variant & 1) else pg.to_json(v)
   if variant & 4:
     try:
@@ -546,7 +602,7 @@ def reload_check(d, c=None, variant=0, only=None):
                f'{" then ".join(used)} raised {type(e).__name__}: {e!s:.200}')]
     problems = []
     compare(v, back, True, '', problems)
-    if not problems and not nan:
+    if not problems and not nan and not ueq:
       try:
         if not (pg.eq(v, back) and pg.eq(back, v)):
           problems.append(('not-equal', f'pg.eq(original, restored) is False: '
@@ -568,7 +624,7 @@ def family_of(d, family):
   """Shrinking may turn e.g. a spec into one of its default values."""
   if d[0] in ('TD', 'TL'):
     return 'typed-root'
-  if d[0] in ('v', 'D', 'd', 'L', 'l', 't', 'leaf'):
+  if d[0] in ('v', 'D', 'd', 'L', 'l', 't', 'leaf', 'oeq', 'kp'):
     return 'container'
   if d[0] in ('O', 'P', 'F', 'H'):
     return 'object'
